@@ -46,6 +46,11 @@ class Prop(common.PropertyCheck):
                    'a': a, 'b': b, 'theta': rng.choice([0.0, 0.6, math.pi / 6, math.pi / 2, -1.1, 2.5, rng.uniform(-4, 4)]),
                    'center': [rng.choice([0.0, 3.0, 500.0, rng.uniform(-10, 600)]), rng.choice([0.0, -2.0, 400.0, rng.uniform(-10, 600)])],
                    'log': rng.random() < 0.3, 'chform': rng.choice(['names', 'pos', 'mixed']), 'seed': rng.randrange(1 << 30)}
+        # log-space ellipses around log coordinate 0 on data with zero / negative values (no image in log space: must be dropped)
+        for _ in range(self.budget(120, 1500)):
+            yield {'g': 'ellipse', 'cont': rng.choice(['array', 'sample']), 'N': rng.choice([1, 20, 60]), 'a': rng.uniform(0.3, 2.5), 'b': rng.uniform(0.3, 2.5),
+                   'theta': rng.choice([0.0, 0.4, -1.1, rng.uniform(-4, 4)]), 'center': [rng.uniform(-0.5, 1.5), rng.uniform(-0.5, 1.5)],
+                   'log': True, 'lograw': True, 'chform': rng.choice(['names', 'pos', 'mixed']), 'seed': rng.randrange(1 << 30)}
         for bad in ('ellipse1', 'ellipse3', 'startend_too_many'):
             yield {'g': 'bad', 'what': bad}
 
@@ -156,11 +161,15 @@ class Prop(common.PropertyCheck):
                 else:
                     ch = [0, 1]
                 dd = d
-                if case['log']:
+                if case.get('lograw'):
+                    # small values incl. zeros and (for float data) negatives, unchanged
+                    dd = d % 40 if names is None else FlowCal.transform.transform(d, None, lambda x: np.asarray(x, dtype=float) % 40 - (3 if case['seed'] % 2 else 0))
+                    arr = np.asarray(dd, dtype=np.float64)
+                elif case['log']:
                     dd = (np.abs(d) + 1) if names is None else FlowCal.transform.transform(d, None, lambda x: np.abs(np.asarray(x, dtype=float)) + 1)
                     arr = np.asarray(dd, dtype=np.float64)
-                center = case['center'] if not case['log'] else [math.log10(abs(c) + 2) for c in case['center']]
-                a, b = (case['a'], case['b']) if not case['log'] else (case['a'] / 100 + 0.1, case['b'] / 100 + 0.1)
+                center = case['center'] if (not case['log'] or case.get('lograw')) else [math.log10(abs(c) + 2) for c in case['center']]
+                a, b = (case['a'], case['b']) if (not case['log'] or case.get('lograw')) else (case['a'] / 100 + 0.1, case['b'] / 100 + 0.1)
                 try:
                     full = FlowCal.gate.ellipse(dd, ch, center, a, b, case['theta'], log=case['log'], full_output=True)
                     short = FlowCal.gate.ellipse(dd, ch, center, a, b, case['theta'], log=case['log'])
@@ -168,7 +177,8 @@ class Prop(common.PropertyCheck):
                     return {'err': type(e).__name__ + ':' + str(e)[:60]}
                 pts = arr[:, [0, 1]]
                 if case['log']:
-                    pts = np.log10(pts)
+                    with np.errstate(all='ignore'):
+                        pts = np.log10(pts)
                 params = {'center': center, 'a': a, 'b': b, 'theta': case['theta'], 'pts': [[bits(x), bits(y)] for x, y in pts],
                           'contour': [[bits(x), bits(y)] for x, y in (np.log10(full.contour[0]) if case['log'] else full.contour[0])],
                           'ncontour': len(full.contour)}
@@ -229,6 +239,10 @@ class Prop(common.PropertyCheck):
             want = []
             band = Fraction(1, 10 ** 9)
             for (xb, yb), m in zip(p['pts'], impl['mask']):
+                if not all(math.isfinite(struct.unpack('<d', struct.pack('<Q', v))[0]) for v in (xb, yb)):
+                    self.bump('ellipse: event without image in log space')
+                    want.append(False)
+                    continue
                 f = form(xb, yb)
                 if abs(f - 1) <= band:
                     self.exclude('ellipse: event within 1e-9 of the boundary')
@@ -279,7 +293,9 @@ class Prop(common.PropertyCheck):
             return None if model['mask'] == impl['mask'] else 'start_end mask: impl %s vs model %s' % (impl['mask'], model['mask'])
         if case['g'] == 'high_low':
             return None if model['mask'] == impl['mask'] else 'high_low mask: impl %s vs model %s' % (impl['mask'][:20], model['mask'][:20])
-        for c, m in zip(model['cls'], impl['mask']):
+        for c, m, pt in zip(model['cls'], impl['mask'], impl['params']['pts']):
+            if not all(math.isfinite(struct.unpack('<d', struct.pack('<Q', v))[0]) for v in pt):
+                continue
             if c != 2 and bool(c) != m:
                 return 'ellipse: impl %s vs model class %s' % (m, c)
         return None
